@@ -45,6 +45,7 @@ package redis
 //   cRecv  replies read from any connection so far
 //   bSent / bRecv  the same, counted on the node connection of the batch being executed
 //   connDropped    the pipeline actor has shut its connection down and not yet taken a new one
+//   failingOthers  1 while the actor fails the requests queued BEHIND the one whose reply it just read
 //@ func redisNode.getConn
 //@   trusted abstract connection pool
 //@   ensures conn: result1 == nil ==> result0 != nil
@@ -88,7 +89,11 @@ package redis
 //@ pred isAsk(reply): hastype(reply, "common.RedisError") && common.SpecRedirectClass(string(astype(reply, "common.RedisError"))) == common.KrespAsk
 //@ pred isPlain(reply): !hastype(reply, "common.RedisError") || common.SpecRedirectClass(string(astype(reply, "common.RedisError"))) == common.KrespError
 
-// (errors.Join, fmt.Errorf: library contracts declared in config / pkg/errors)
+// (errors.Join: library contract declared in config)
+//@ func fmt.Errorf(format, a) (err)
+//@   trusted library contract: a fresh error value of fmt's own type
+//@   ensures nonnil: err != nil
+//@   ensures own_error_type: !hastype(err, "common.RedisError")
 //@ func strings.Split(s, sep) (r)
 //@   trusted library contract
 //@   modifies nothing
@@ -257,11 +262,20 @@ func SpecUpper(s string) string { return s }
 //@ func nodePipeline.run
 //@   arith int
 //@   properties C19
+//@   replay cluster_txnPipeline
 //@   ghost var connDropped mathint = 0
 //@   requires nonnil: p != nil && p.node != nil
-//@   modifies heap, cSent, cRecv, connDropped
+//@   modifies heap, cSent, cRecv, connDropped, failingOthers
+//@   ghost var failingOthers mathint = 0
+//@   set failingOthers = 1 at call failPending
+//@   set failingOthers = 0 after call failPending
+//@   assert at call complete: a_redirect_answers_only_the_request_that_received_it: failingOthers == 1 ==> !hastype(err, "common.RedisError")
 //@   set connDropped = 1 at call shutdown
 //@   set connDropped = 0 after call getConn
 //@   assert at call getConn: a_dropped_connection_leaves_no_outstanding_reply: connDropped == 1 ==> len(pending) == 0
 //@   loop 1:
-//@     invariant dropped_connection_has_no_outstanding_reply: connDropped == 1 ==> conn == nil && len(pending) == 0
+//@     invariant dropped_connection_has_no_outstanding_reply: failingOthers == 0 && (connDropped == 1 ==> conn == nil && len(pending) == 0)
+
+//@ func errors.As(err, target) (r)
+//@   trusted library contract: in this repository errors.As is only used with *common.RedisError targets; false means err is not one
+//@   ensures not_that_type: !r ==> !hastype(err, "common.RedisError")
